@@ -81,17 +81,29 @@ type obs struct {
 	closeReturned []int64
 	ingressDone   int
 	closeDone     int
+	clk           clockID
 	fed           int32 // connections the feeder's listener handed out
 	direct        int   // connections ingressed directly
 }
 
-func (o *obs) tick() int64 { return atomic.AddInt64(&o.clock, 1) }
+// clockID makes the harness clock a scheduler-visible object: transitions that
+// read it are mutually dependent, so the sleep-set search keeps both orders of
+// "Close returned" and "Accept started".
+type clockID struct{ id int }
+
+func (c *clockID) VrtID() *int { return &c.id }
+
+func (o *obs) tick() int64 {
+	vrt.Touch(&o.clk)
+	return atomic.AddInt64(&o.clock, 1)
+}
 
 // body spawns the scenario's threads. Under the scheduler vrt.Go creates
 // managed threads; free-running it creates goroutines (joined by WaitFree).
 func body(sc scenario) *obs {
 	o := &obs{direct: sc.Ingress}
 	l, cancel := newListener()
+	vrt.Register(l, &o.clk) // stable identities for the sleep-set search
 	for i := 0; i < sc.Ingress+sc.Feeder; i++ {
 		o.conns = append(o.conns, &fakeConn{id: i})
 	}
@@ -275,7 +287,7 @@ func run(c *engine.Ctx, r *engine.Report) {
 		r.InfraError("C18 must run in the scheduler build")
 		return
 	}
-	r.Need("explored", "scenario-with-several-outcomes", "outcome:some-accepted", "outcome:some-closed")
+	r.Need("explored", "unbounded-pass", "scenario-with-several-outcomes", "outcome:some-accepted", "outcome:some-closed")
 	if c.Shard == 0 {
 		// trusted base: the shims must reproduce the documented outcome sets of the litmus programs
 		if msg, n := selftest.Run(); msg != "" {
@@ -283,6 +295,7 @@ func run(c *engine.Ctx, r *engine.Report) {
 			return
 		} else {
 			r.Extra["shim_selftest_schedules"] = float64(n)
+			r.Extra["sleep_set_selftest"] = selftest.Reduction
 		}
 	}
 	scs := scenarios(c)
@@ -353,6 +366,46 @@ func run(c *engine.Ctx, r *engine.Report) {
 			}
 		}
 	}
+	// second pass: *all* interleavings (no preemption bound) up to the
+	// equivalence of the sleep-set reduction; scenarios are dealt to the shards
+	for si, sc := range scs {
+		if !c.Mine(si) {
+			continue
+		}
+		cfg := dfsConfig(sc, c, -1)
+		res := engine.RunPORDFS(cfg)
+		r.Eval(int64(res.Executions))
+		r.Traces += int64(res.Executions)
+		r.AddExtra("unbounded_sleep_set_executions", float64(res.Executions))
+		r.Branch("unbounded-pass")
+		if !res.Exhaustive {
+			r.Incomplete(fmt.Sprintf("scenario {%s}: unbounded sleep-set pass cut by the deadline after %d executions", sc, res.Executions))
+		} else {
+			r.AddExtra("scenarios_exhausted_without_bound", 1)
+		}
+		for o, n := range res.Outcomes {
+			if o == "(sleep-set pruned)" {
+				r.AddExtra("sleep_set_pruned_executions", float64(n))
+				continue
+			}
+			key := fmt.Sprintf("{%s} %s", sc, o)
+			if _, seen := r.Outcomes[key]; !seen && c.Shards == 1 {
+				r.Outcomes["unbounded-only:"+key] += int64(n)
+			}
+		}
+		for _, v := range res.Violations {
+			kind := "accounting"
+			switch {
+			case strings.HasPrefix(v.Message, "deadlock"):
+				kind = "deadlock"
+			case strings.HasPrefix(v.Message, "panic"):
+				kind = "panic"
+			case strings.Contains(v.Message, "stranded"):
+				kind = "stranded"
+			}
+			r.Violate("unbounded:"+kind, fmt.Sprintf("scenario {%s}, sleep-set schedule %v: %s", sc, v.Choices, v.Message), replayData{Scenario: sc, Choices: v.Choices, Bound: -1})
+		}
+	}
 	r.Nontrivial(int64(len(r.Outcomes)))
 }
 
@@ -404,6 +457,15 @@ func replay(c *engine.Ctx, raw json.RawMessage) (string, bool) {
 	if rd.Choices == nil {
 		return "free-running finding: not schedule-replayable, re-run the check", false
 	}
+	if rd.Bound < 0 {
+		var ob any
+		x := vrt.RunPOR(rd.Choices, len(rd.Choices), nil, vrt.Options{Trace: true, MaxSteps: 5000}, func() { ob = body(rd.Scenario) })
+		msg := x.Failure
+		if msg == "" {
+			msg = judge(rd.Scenario, ob.(*obs))
+		}
+		return fmt.Sprintf("scenario {%s}\nsleep-set schedule %v\ntrace: %s\n%s", rd.Scenario, rd.Choices, strings.Join(x.Trace, " | "), msg), msg != ""
+	}
 	x, _, msg := engine.RunOnce(dfsConfig(rd.Scenario, c, rd.Bound), rd.Choices, true)
 	return fmt.Sprintf("scenario {%s}\nschedule %v\ntrace: %s\n%s", rd.Scenario, rd.Choices, strings.Join(x.Trace, " | "), msg), msg != ""
 }
@@ -413,7 +475,7 @@ func init() {
 		ID:     "C18",
 		Level:  "exploration",
 		Binary: "sched",
-		Rule: "thread sets {ingress x k, accept x m, close x c, optional parent cancel, optional IngressListener feeder} over one real MultiplexingListener (quick: 7 scenarios with up to four harness threads; thorough: all k+feeder<=3, m<=2, c<=2, cancel on/off) explored depth-first over every schedule with at most 2 (thorough: 3) preemptions, select branches and spawn order included; oracle: no deadlock, no panic, every call returns, every connection is returned by exactly one Accept xor closed, no Accept that starts after a Close returned hands out a connection; " +
+		Rule: "thread sets {ingress x k, accept x m, close x c, optional parent cancel, optional IngressListener feeder} over one real MultiplexingListener (quick: 7 scenarios with up to four harness threads; thorough: all k+feeder<=3, m<=2, c<=2, cancel on/off) explored depth-first (a) over every schedule with at most 2 (thorough: 3) preemptions, select branches included, without any reduction, and (b) over all interleavings without a bound, reduced by sleep sets (footprint-based dependence); oracle: no deadlock, no panic, every call returns, every connection is returned by exactly one Accept xor closed, no Accept that starts after a Close returned hands out a connection; " +
 			"evaluations = schedules executed; distinct_nontrivial = distinct (scenario, per-connection fate, accept errors) outcomes observed",
 		Assumptions: []string{"scheduling points are the synchronisation operations of net/splitlistener.go (sequential consistency between them); the shims follow the Go runtime's algorithms for RWMutex writer preference, channel hand-off, select and close", "executions beyond the preemption bound are not covered; 'randomized stress with many goroutines' is sampled by the race companion only"},
 		Shards:      func(c *engine.Ctx) int { return 16 },
